@@ -5,7 +5,8 @@ from props.common import LineRunner, ProgRunner
 from props.builder import Prog, PProg
 from props.pcommon import *
 
-LEAN_TARGETS = ["Plonk.Props.C15"]
+LEAN_TARGETS = ["Plonk.Props.C15", "Plonk.Props.C15Packed"]
+EXTRA_AUDITS = ["C15Packed"]
 PROFILE = "release"
 EXTRA_PROFILES = ["checked"]
 ASSUMPTIONS = ["deflate / inflate (miniz_oxide) is external and not modelled: the model works on the inflated MessagePack payload "
